@@ -63,6 +63,10 @@ def run(ctx):
     # by zero or the padding loop spin: no finite component array)
     from . import c05
     ctx.rule(c05.rule_strict_search, 'C03.R10')
+    from . import l2
+    ctx.rule(l2.rule_inplace_input_dtype, 'C03.R11', ['emd.sift.sift', 'emd.sift.mask_sift', 'emd.sift.ensemble_sift',
+                                                     'emd.sift.complete_ensemble_sift', 'emd.sift.get_next_imf',
+                                                     'emd.sift.get_next_imf_mask', 'emd.sift._sift_with_noise'])
     ctx.rule(siftcore.rule_through_layer_loop, 'C03.R9', sift, ('emd.sift.get_next_imf',))
     ctx.rule(siftcore.rule_through_layer_loop, 'C03.R9', msift, ('emd.sift.get_next_imf_mask',), context=MASK_CTX)
     ctx.rule(siftcore.rule_through_layer_loop, 'C03.R9', ceemd, ('emd.sift._sift_with_noise',),
